@@ -41,6 +41,8 @@ def width(f):
         return 32
     if k == "bwint":
         return 8 * f[1]
+    if k == "bwzero":
+        return 0
     if k == "struct":
         return sum(width(x) for x in f[1])
     if k == "array":
@@ -81,6 +83,11 @@ def mkfield(f, impl, nm):
         return C.Bytewise(C.Bytes(2))
     if k == "bwf32":
         return C.Bytewise(C.Float32b)
+    if k == "bwzero":
+        # a byte-oriented island of width 0 between bit fields: takes nothing, emits nothing
+        if impl == "ctxwidth" and f[1] == 1:
+            return C.Bytewise(C.Bytes(getattr(C.this._params, nm.w(0))))
+        return C.Bytewise([C.Array(0, C.Byte), C.Bytes(0), C.Struct()][f[1]])
     if k == "bwint":
         # a byte-oriented integer island with every signed/swapped combination (through the public 24-bit names where they exist)
         n, sg, sw = f[1], f[2], f[3]
@@ -154,6 +161,8 @@ class Oracle:
                 return take(16).to_bytes(2, "big")
             if k == "bwf32":
                 return struct.unpack(">f", take(32).to_bytes(4, "big"))[0]
+            if k == "bwzero":
+                return [[], b"", {}][f[1]]
             if k == "bwint":
                 raw = take(8 * f[1]).to_bytes(f[1], "big")
                 return int.from_bytes(raw, "little" if f[3] else "big", signed=f[2])
@@ -379,6 +388,8 @@ def decorate(rng, parts, mode):
                 out.append(["struct", [["int", a, rng.random() < 0.5, False], ["int", w - a, False, False]]])
             else:
                 out.append(["int", w, rng.random() < 0.5, False])
+    if mode not in ("plain", "signed") and rng.random() < 0.2:
+        out.insert(rng.randint(0, len(out)), ["bwzero", rng.randint(0, 2)])
     return out
 
 
@@ -401,11 +412,13 @@ def boundary_patterns(rng, layout, nrand):
     for f in layout:
         fl(f)
     for i, w in enumerate(flat_w):
+        if w == 0:
+            continue
         for bv in (1 << (w - 1), (1 << (w - 1)) - 1, (1 << w) - 1, 1, 0, (1 << (w - 1)) + 1 if w > 1 else 0, 0xFF if w >= 16 else 0, 0xFF00 & ((1 << w) - 1)):
             for fill in (0, 1, 2):
                 acc = 0
                 for j, w2 in enumerate(flat_w):
-                    v = bv if j == i else (0 if fill == 0 else (1 << w2) - 1 if fill == 1 else rng.getrandbits(w2))
+                    v = bv if j == i else (0 if fill == 0 or w2 == 0 else (1 << w2) - 1 if fill == 1 else rng.getrandbits(w2))
                     acc = (acc << w2) | v
                 pats.add(acc.to_bytes(total, "big"))
     for _ in range(nrand):
@@ -456,6 +469,22 @@ def run(ctx):
                             break
                     ctx.nontrivial("island", layout, impl)
                 ctx.count("integer_island_layouts")
+    # ---- byte-oriented islands of width 0 (empty array / empty bytes / empty structure) before, between and after bit fields
+    for zi in (0, 1, 2):
+        for li, lead in enumerate(([], [["int", 3, False, False]], [["int", 8, True, False]], [["flag"], ["int", 12, False, False]])):
+            k += 1
+            if not ctx.mine(k):
+                continue
+            rest = {0: [["int", 4, False, False], ["int", 4, True, False]], 1: [["int", 5, True, False]], 2: [["int", 8, False, True]], 3: [["int", 3, False, False], ["bwzero", (zi + 1) % 3]]}[li]
+            layout = lead + [["bwzero", zi]] + rest
+            for impl in impls + ["bitstruct-mixed"]:
+                lr = LayoutRunner(ctx, layout, impl)
+                for pat in boundary_patterns(lrng, layout, 40):
+                    lr.run(pat)
+                    if lr.failed:
+                        break
+                ctx.nontrivial("zero-island", layout, impl)
+            ctx.count("zero_width_island_layouts")
     # ---- probes inside streamed regions (repetition / optional parts / alternatives that run out of bits part-way): reference model
     from .c09 import bitprobe_recipes, case_bitprobe
     for bi, br in enumerate(bitprobe_recipes()):
